@@ -145,12 +145,20 @@ func tryQueueReloadRequest(
 	reloadPending *atomic.Bool,
 	req reloadRequest,
 ) bool {
-	if reloadPending != nil && !reloadPending.CompareAndSwap(false, true) {
+	for reloadPending != nil && !reloadPending.CompareAndSwap(false, true) {
 		if log != nil {
 			log.Warnln("[Reload] Reload already in progress or handoff pending; ignoring this signal")
 		}
 		restoreRejectedReloadProgress(reloadActive, false)
-		return false
+		if reloadPending.Load() {
+			return false
+		}
+		// The reload this request collided with settled while the busy report
+		// was being written: its own clean-up came too early to remove the
+		// report, and `dae reload` does not signal while the progress file says
+		// busy. Nothing is in progress any more, so drop the stale report and
+		// take the request after all.
+		clearRejectedReloadProgress()
 	}
 	beginReloadProxyFailureSuppression()
 	select {
